@@ -153,12 +153,13 @@ class App:
             if op == 'add':
                 via = c.get('via')
                 hd, ow, nm = self.handler(c['h']), bool(c.get('overwrite')), c.get('name')
+                meths = iterable_of(c['methods'], c.get('mkind'))
                 if c.get('meta') is not None or via == 'router_add':
-                    router.add(c['rule'], c['methods'], hd, nm, meta=c.get('meta'), overwrite=ow)
+                    router.add(c['rule'], meths, hd, nm, meta=c.get('meta'), overwrite=ow)
                 elif via == 'route_deco':
-                    app.route(c['rule'], c['methods'], name=nm, overwrite=ow)(hd)
+                    app.route(c['rule'], meths, name=nm, overwrite=ow)(hd)
                 elif via == 'route_cb':
-                    app.route(c['rule'], c['methods'], hd, name=nm, overwrite=ow)
+                    app.route(c['rule'], meths, hd, name=nm, overwrite=ow)
                 elif via == 'shortcut':
                     m = c['methods'] if isinstance(c['methods'], str) else c['methods'][0]
                     getattr(app, m.lower())(c['rule'], callback=hd, name=nm, overwrite=ow)
@@ -166,7 +167,7 @@ class App:
                     m = c['methods'] if isinstance(c['methods'], str) else c['methods'][0]
                     getattr(app, m.lower())(c['rule'], name=nm, overwrite=ow)(hd)
                 else:
-                    app.add_route(c['rule'], c['methods'], hd, nm, overwrite=ow)
+                    app.add_route(c['rule'], meths, hd, nm, overwrite=ow)
             elif op == 'remove':
                 app.remove_route(c['rule'])
             elif op == 'remove_name':
@@ -322,6 +323,28 @@ class App:
         return dict(direct=direct, wsgi=w)
 
 
+MKINDS = ['gen', 'map', 'iter', 'tuple', 'dict_keys', 'set']
+
+
+def iterable_of(methods, kind):
+    """the method argument as another kind of iterable (one-shot ones included): the registration must not depend on it"""
+    if kind is None or not isinstance(methods, list):
+        return methods
+    if kind == 'gen':
+        return (m for m in methods)
+    if kind == 'map':
+        return map(str, methods)
+    if kind == 'iter':
+        return iter(methods)
+    if kind == 'tuple':
+        return tuple(methods)
+    if kind == 'dict_keys':
+        return dict.fromkeys(methods).keys()
+    if kind == 'set':
+        return set(methods) if len(methods) == 1 else tuple(methods)      # a set has no order: one element only
+    return methods
+
+
 def router_pattern(rule):
     from ombott.router.radirouter import RadiRouter
     return RadiRouter.to_pattern(rule)
@@ -449,7 +472,10 @@ def filter_table(ctx, path):
         for i in range(len(sp)):
             v, n, sel = f(sp[i:])
             if sel is not None:
-                raise ValueError('rex selector in a generated rule')
+                # a rex selector rewrites the remaining path: outside the model; such rules take part in
+                # registration / removal / lookup by rule only, no probe path leads to their node
+                row.append(None)
+                continue
             row.append(None if v is None else (enc_value(v), n))
         tab.append(row)
     return tab
@@ -848,6 +874,8 @@ def vary_add(rng, c):
     ms = c['methods']
     r = rng.random()
     if r < 0.45:
+        if isinstance(ms, list) and rng.random() < 0.35:
+            c['mkind'] = rng.choice(MKINDS)         # through Ombott.add_route
         return c
     if isinstance(ms, list) and len(ms) == 1 and ms[0] in STD_VERBS and r < 0.65:
         c['via'] = rng.choice(['shortcut', 'shortcut_deco'])
@@ -859,6 +887,8 @@ def vary_add(rng, c):
         c['meta'] = rng.randrange(1, 5)
     if isinstance(ms, list) and len(ms) == 1 and rng.random() < 0.4:
         c['methods'] = ms[0]
+    elif isinstance(c['methods'], list) and rng.random() < 0.5:
+        c['mkind'] = rng.choice(MKINDS)
     return c
 
 
